@@ -18,7 +18,7 @@ RULE = (
     "lists in random order): submit(task|workflow, rerun?, propagate_rerun?, root, readonly list, debug|simulated-pool "
     "worker) over a pool of 4 plain tasks and 2 workflows sharing inner identities with them, and leave_residue(identity, "
     "location): a real process executing that job is SIGKILLed at a Chooser-picked point, leaving an incomplete "
-    "directory / stale lock / torn result.  Reference model: per location the set of identities with a complete "
+    "directory / stale lock / torn result (in half of the cases the lock and info files are then removed, as in a copied cache).  Reference model: per location the set of identities with a complete "
     "successful result.  Non-trivial = the history contains a cache hit, a rerun or a residue; distinct = distinct "
     "history digest."
 )
@@ -30,7 +30,7 @@ ASSUMPTIONS = [
     "identity = (task class, input values) as the model understands the computation, never pydra's checksum",
     "with propagate_rerun=False inner tasks of a rerun workflow follow the ordinary cache rule",
 ]
-PROBES = ["cache_hit", "readonly_hit", "rerun", "rerun_no_propagate", "residue_in_root", "residue_in_readonly", "cf_submission", "workflow_inner_shared"]
+PROBES = ["residue_without_lock", "cache_hit", "readonly_hit", "rerun", "rerun_no_propagate", "residue_in_root", "residue_in_readonly", "cf_submission", "workflow_inner_shared"]
 N = {"quick": 300, "thorough": 6000}
 JOBS = 6
 
@@ -110,6 +110,14 @@ def run_case(case, ch, workdir):
                         pass
                 finally:
                     sim.shutdown()
+                unlocked = ch.chance(1, 2, "res-unlocked")
+                if unlocked:
+                    # the leftovers without the dead process's lock and info files, as in a
+                    # cache directory that was copied or cleaned of bookkeeping files
+                    for n in os.listdir(locs[loc]):
+                        if n.endswith(".lock") or n.endswith("_info.json"):
+                            os.unlink(os.path.join(locs[loc], n))
+                    probe("residue_without_lock")
                 # model: identities with a complete successful result on disk now (reference loader)
                 done_now = _complete_keys(locs[loc])
                 for kk in keys + [f"wf:{name}"]:
